@@ -246,10 +246,15 @@ sets up the bundle invariant `BI`), `bundle_dag_memoises` (induction over the de
 every body satisfies the frame contract `BodyOK` relative to the modules defined before it, every
 accessor call returns the module's value, runs the body at most once per run, and keeps `BI`),
 `accessor_memoises`, `definition_scoped`, `inline_dag` (the real emission order IS dependency
-order). What is still missing: discharging `BodyOK` for arbitrary module bodies (it is proved for
-leaf bodies, `bodyOK_leaf`; the general case needs heap-monotonicity of the whole of `Sem` — the
-relation `SRel` of Shared/VisitorSound compares states with EQUAL cells and tables, so it does not
-provide it) and the simulation between the bundle's heap and the reference program's heap. The
+order). `bodyOK_requires` (the contract HOLDS for the first-order fragment: modules that require earlier
+modules and return a literal or a required value — diamonds included). What is still missing:
+discharging `BodyOK` for arbitrary module bodies and the simulation between the bundle's heap and the
+reference program's heap. Neither follows from the generic machinery on main: stage 3
+(`Shared/VisitorSoundHeap`, `Heap/*`) relates states whose tables, closures, globals and trace are
+EQUAL and whose cells correspond up to an injection with garbage; it is a relation between two runs,
+not a frame rule (it does not say that cells/tables a body cannot reach are left unchanged), and the
+bundle and the reference program allocate different tables and closures, which needs exactly the
+invariance that `Heap/General.lean` states as `renumbering_invariance` and does not prove. The
 harness checks the statement by execution on every generated graph instead. -/
 def bundle_refines_full : Prop :=
   ∀ (N : NumOps) (ρ : ExtOracle N) (externs : List String) (M : String) (mods : List (String × Src)) (entry : Src)
@@ -470,6 +475,184 @@ example (ρ : ExtOracle natOps) (L : Layout) (cI i a : Nat) (n : Nat) :
       subst hm
       exact bodyOK_leaf ρ L _ _ _ rfl n _)
     0 _ n rfl trivial
+
+/-! ### the first-order fragment: modules that require earlier modules and return a value -/
+
+/-- `local d = M.<name>()` — what a `local d = require("…")` becomes in a bundled module -/
+def requireStmt (M name : String) : Stmt := .localAssign .loc [.mk "d" none] [accessorCall M name]
+
+/-- a module of the first-order fragment: it requires the modules `reqs` (in this order, each into
+the local `d`) and returns `ret` -/
+def reqBody (M : String) (reqs : List String) (ret : Expr) : Block :=
+  .mk (reqs.map (requireStmt M)) (some (.ret [ret]))
+
+theorem evalE_call_noargs (call : CallFn N) (ρ : ExtOracle N) (k : Nat) (env : Env N) (f : Expr) (kd : ArgKind)
+    (σ : State N) :
+    evalE call ρ k env (.call f none kd []) σ
+      = (evalE call ρ k env f σ).bind fun fv σ1 => callVal call ρ k (first fv) [] σ1 := by
+  simp [evalE, evalEs, Res.bind]
+
+theorem exec_requireStmt (ρ : ExtOracle N) (L : Layout) (mods deps : List ModInfo) (n' : Nat) (d : ModInfo)
+    (hd : d ∈ mods) (hspec : AccSpec ρ L mods d deps n') (hMd : L.M ≠ "d")
+    (env : Env N) (loaded : String → Option (Nat × Val N)) (ps : List Nat) (σ : State N)
+    (hM : lookupAssoc L.M env.locals = some L.cM) (hBI : BI L mods loaded σ) (hP : Pend L mods ps loaded σ) :
+    ∃ (env' : Env N) (σ' : State N) (loaded' : String → Option (Nat × Val N)),
+      execS (callClosure ρ (n' + 2)) ρ (n' + 2) env (requireStmt L.M d.name) σ = .ok (.next env') σ' ∧
+      lookupAssoc L.M env'.locals = some L.cM ∧ env'.varargs = env.varargs ∧
+      BI L mods loaded' σ' ∧ Pend L mods ps loaded' σ' ∧
+      (∀ name x, loaded name = some x → loaded' name = some x) ∧
+      (∀ name, loaded' name ≠ none → loaded name ≠ none ∨ name ∈ namesOf deps) ∧
+      σ.cells.length ≤ σ'.cells.length := by
+  obtain ⟨w, σ1, loaded', hcall, hBI1, hP1, _, hmono, hnew, hcells, _⟩ := hspec loaded [] ps σ hBI hP
+  have rd := hBI.ready d hd
+  have hfield : evalE (callClosure ρ (n' + 2)) ρ (n' + 2) env (.field (.var L.M) d.name) σ = .ok [.fn d.accId] σ := by
+    simp [evalE, lookupVar, hM, hBI.infra.cellM, Res.bind, indexVal, first, rd.field]
+  have hMd' : ("d" == L.M) = false := beq_eq_false_iff_ne.mpr (Ne.symm hMd)
+  refine ⟨⟨("d", σ1.cells.length) :: env.locals, env.varargs⟩, (σ1.allocCell w).2, loaded', ?_, ?_, rfl,
+    hBI1.allocCell _, hP1.allocCell _, hmono, hnew, ?_⟩
+  · have hE : evalE (callClosure ρ (n' + 2)) ρ (n' + 2) env (accessorCall L.M d.name) σ = .ok [w] σ1 := by
+      simp only [accessorCall]
+      rw [evalE_call_noargs, hfield]
+      simp only [Res.bind, first, List.headD, callVal, rd.acc]
+      exact hcall
+    simp [requireStmt, execS, evalEs, hE, Res.bind, bindLocals, TName.name, first]
+  · simp [lookupAssoc, hMd', hM]
+  · have : (σ1.allocCell w).2.cells.length = σ1.cells.length + 1 := by simp [State.allocCell]
+    omega
+
+theorem exec_requires (ρ : ExtOracle N) (L : Layout) (mods deps : List ModInfo) (n' : Nat) (hMd : L.M ≠ "d") :
+    ∀ (reqs : List ModInfo),
+      (∀ d ∈ reqs, d ∈ mods ∧ AccSpec ρ L mods d deps n') →
+      ∀ (env : Env N) (loaded : String → Option (Nat × Val N)) (ps : List Nat) (σ : State N),
+        lookupAssoc L.M env.locals = some L.cM → BI L mods loaded σ → Pend L mods ps loaded σ →
+        ∃ (env' : Env N) (σ' : State N) (loaded' : String → Option (Nat × Val N)),
+          execSs (callClosure ρ (n' + 2)) ρ (n' + 2) env (reqs.map fun d => requireStmt L.M d.name) σ
+            = .ok (.next env') σ' ∧
+          lookupAssoc L.M env'.locals = some L.cM ∧ env'.varargs = env.varargs ∧
+          BI L mods loaded' σ' ∧ Pend L mods ps loaded' σ' ∧
+          (∀ name x, loaded name = some x → loaded' name = some x) ∧
+          (∀ name, loaded' name ≠ none → loaded name ≠ none ∨ name ∈ namesOf deps) ∧
+          σ.cells.length ≤ σ'.cells.length := by
+  intro reqs
+  induction reqs with
+  | nil =>
+    intro _ env loaded ps σ hM hBI hP
+    exact ⟨env, σ, loaded, by simp [execSs], hM, rfl, hBI, hP, fun _ _ h => h, fun _ h => Or.inl h, Nat.le_refl _⟩
+  | cons d rest ih =>
+    intro hreq env loaded ps σ hM hBI hP
+    obtain ⟨hd, hspec⟩ := hreq d List.mem_cons_self
+    obtain ⟨env1, σ1, loaded1, hex1, hM1, hva1, hBI1, hP1, hmono1, hnew1, hc1⟩ :=
+      exec_requireStmt ρ L mods deps n' d hd hspec hMd env loaded ps σ hM hBI hP
+    obtain ⟨env2, σ2, loaded2, hex2, hM2, hva2, hBI2, hP2, hmono2, hnew2, hc2⟩ :=
+      ih (fun x hx => hreq x (List.mem_cons_of_mem _ hx)) env1 loaded1 ps σ1 hM1 hBI1 hP1
+    refine ⟨env2, σ2, loaded2, ?_, hM2, hva2.trans hva1, hBI2, hP2, fun name x h => hmono2 name x (hmono1 name x h),
+      ?_, by omega⟩
+    · simp only [List.map_cons, execSs, hex1, Res.bind]
+      exact hex2
+    · intro name hn
+      rcases hnew2 name hn with h | h
+      · exact hnew1 name h
+      · exact Or.inr h
+
+/-- **Bodies of the first-order fragment satisfy the contract.** A module that requires earlier
+modules `reqs` (each through its accessor, into a local) and returns an expression whose evaluation
+is pure — a literal, or the local holding a required value — satisfies `BodyOK`: its run returns,
+keeps the bundle invariant and every pending box, loads only modules defined before it. This is the
+step that makes `bundle_dag_memoises` a genuine induction: diamonds (`a` and `b` both requiring
+`c`) are covered, `c` being answered from its box the second time. -/
+theorem bodyOK_requires (ρ : ExtOracle N) (L : Layout) (mods : List ModInfo) (lvl : ModInfo → Nat → Prop) (m : ModInfo)
+    (deps reqs : List ModInfo) (ret : Expr) (n' : Nat)
+    (hbody : m.body = reqBody L.M (reqs.map (·.name)) ret)
+    (hMd : L.M ≠ "d")
+    (hreqs : ∀ d ∈ reqs, d ∈ mods ∧ d ∈ deps ∧ lvl d n')
+    (hname : m.name ∉ namesOf deps)
+    (hret : ∀ (env : Env N) (σ : State N), ∃ v, evalE (callClosure ρ (n' + 2)) ρ (n' + 2) env ret σ = .ok [v] σ) :
+    BodyOK ρ L mods lvl m (n' + 2) deps := by
+  intro hdeps loaded ps σ hBI hP hl
+  have hBI2 : BI L mods loaded ((σ.allocCell .nil).2.allocTable { entries := [], mt := none }).2 :=
+    (hBI.allocCell _).allocTable
+  have hP2 : Pend L mods (σ.tables.length :: ps) loaded ((σ.allocCell .nil).2.allocTable { entries := [], mt := none }).2 :=
+    (hP.allocCell _).allocTable_new (hBI.allocCell _)
+  obtain ⟨env', σ', loaded', hex, _, _, hBI', hP', hmono, hnew, hcells⟩ :=
+    exec_requires ρ L mods deps n' hMd reqs
+      (fun d hd => ⟨(hreqs d hd).1, hdeps d (hreqs d hd).2.1 n' (hreqs d hd).2.2⟩)
+      ⟨m.locals L, []⟩ loaded (σ.tables.length :: ps) _ (lookup_M_locals L m σ hBI.infra) hBI2 hP2
+  obtain ⟨v, hv⟩ := hret env' σ'
+  refine ⟨[v], σ', loaded', ?_, hBI', hP', ?_, hmono, hnew, ?_⟩
+  · simp only [implClosure, implFn]
+    rw [callClosure_noparams, hbody]
+    simp only [reqBody, List.map_map, execB]
+    have hex' : execSs (callClosure ρ (n' + 2)) ρ (n' + 2) ⟨m.locals L, []⟩
+        (List.map (requireStmt L.M ∘ fun x => x.name) reqs) _ = _ := hex
+    rw [hex']
+    simp [Res.bind, execLast, evalEs, hv]
+  · cases hq : loaded' m.name with
+    | none => rfl
+    | some x =>
+      exfalso
+      rcases hnew m.name (by rw [hq]; simp) with h | h
+      · exact h hl
+      · exact hname h
+  · have : ((σ.allocCell (.nil : Val N)).2.allocTable { entries := [], mt := none }).2.cells.length = σ.cells.length + 1 := by
+      simp [State.allocCell, State.allocTable]
+    omega
+
+-- non-vacuity of `bodyOK_requires` + `bundle_dag_memoises`: a diamond-shaped bundle
+--   c: `return false`     a: `local d = M.c()  return d`     t: `local d = M.a()  local d = M.c()  return d`
+-- (`c` is reached twice from `t`). In every state satisfying the invariant the accessor of `t` obeys
+-- `AccSpec` at level 4. (Distinctness of the names as table keys is passed in: string literals do not
+-- reduce in the kernel.)
+section diamond
+def exC : ModInfo := ⟨"c", exBody, 10, 20, 21⟩
+def exA : ModInfo := ⟨"a", reqBody "M" ["c"] (.var "d"), 11, 22, 23⟩
+def exT : ModInfo := ⟨"t", reqBody "M" ["a", "c"] (.var "d"), 12, 24, 25⟩
+def exLvl : ModInfo → Nat → Prop := fun m n => m = exC ∨ (m = exA ∧ n = 2) ∨ (m = exT ∧ n = 4)
+
+example (ρ : ExtOracle natOps) (L : Layout) (hM : L.M = "M") (hkeys : KeysDistinct [exC, exA, exT]) :
+    AccSpec ρ L [exC, exA, exT] exT [exC, exA, exT] 4 := by
+  have hMd : L.M ≠ "d" := by rw [hM]; decide
+  have hne : ∀ m m' : ModInfo, m.name ≠ m'.name → m ≠ m' := fun m m' h e => h (e ▸ rfl)
+  refine bundle_dag_memoises ρ L [exC, exA, exT] exLvl hkeys ?_ 2 exT 4 rfl (Or.inr (Or.inr ⟨rfl, rfl⟩))
+  intro i m n hi hl
+  match i, hi with
+  | 0, hi =>
+    have : m = exC := by simpa using hi.symm
+    subst this
+    exact bodyOK_leaf ρ L _ _ _ rfl n _
+  | 1, hi =>
+    have : m = exA := by simpa using hi.symm
+    subst this
+    have hn : n = 2 := by
+      rcases hl with h | ⟨_, h⟩ | ⟨h, _⟩
+      · exact absurd h (hne _ _ (by decide))
+      · exact h
+      · exact absurd h (hne _ _ (by decide))
+    subst hn
+    exact bodyOK_requires ρ L _ exLvl exA [exC] [exC] (.var "d") 0 (by rw [hM]; rfl) hMd
+      (by intro d hd; simp at hd; subst hd; exact ⟨by simp, by simp, Or.inl rfl⟩)
+      (by simp [namesOf, exA, exC])
+      (fun env σ => ⟨_, rfl⟩)
+  | 2, hi =>
+    have : m = exT := by simpa using hi.symm
+    subst this
+    have hn : n = 4 := by
+      rcases hl with h | ⟨h, _⟩ | ⟨_, h⟩
+      · exact absurd h (hne _ _ (by decide))
+      · exact absurd h (hne _ _ (by decide))
+      · exact h
+    subst hn
+    -- `a` is admissible at level 2 and so is `c` (its body is a leaf: any level)
+    exact bodyOK_requires ρ L _ exLvl exT [exC, exA] [exA, exC] (.var "d") 2 (by rw [hM]; rfl) hMd
+      (by
+        intro d hd
+        simp at hd
+        rcases hd with hd | hd <;> subst hd
+        · exact ⟨by simp, by simp, Or.inr (Or.inl ⟨rfl, rfl⟩)⟩
+        · exact ⟨by simp, by simp, Or.inl rfl⟩)
+      (by simp [namesOf, exA, exC, exT])
+      (fun env σ => ⟨_, rfl⟩)
+  | k + 3, hi => simp at hi
+end diamond
 
 /-! ## The inlining walk (`RequirePathProcessor`) -/
 
